@@ -43,6 +43,8 @@ RULE = (
     "distinct by canonical case hash"
 )
 TRUSTED = [
+    "consumer grids given in another compatible layout (axes running the other way): delivered cells are matched to the "
+    "published cells by their coordinates (grid.data_points of both grids), finam's layout transform itself is C15's subject",
     "IEEE rounding of LinearTime's old + dt*(new-old) is outside the model: compared with relative tolerance 2^-40 "
     "(scale 1+max|v|); cases with power-of-two gaps and dyadic values are compared exactly",
     "StepTime's float comparison dt > step is modelled as the exact rational comparison against the nominal step "
